@@ -79,6 +79,12 @@ typedef struct { const sim_dgram_t *d; int have_reply; uint8_t reply[8]; size_t 
 static note_t notes[MAXC][MAXN];
 static int nnotes[MAXC];
 
+/* `obsw` lines (C06, round X06): the same scenario language; the state printed after every event has one more field,
+ * ` W<ms>` = what coap_io_prepare_epoll() RETURNED to the application in an io / adv event, ` W-` after any other event
+ * (lean/CoapVerif/Driver/ObserveWait.lean, Model/ObserveWait.lean).  `obs` lines are byte-identical to what they were. */
+static int want_wait, have_wait;
+static unsigned last_wait;
+
 static char *obuf; static size_t olen, ocap;
 static void out(const char *fmt, ...) {
   va_list ap; char tmp[256]; int n;
@@ -272,6 +278,7 @@ static void dump_state(void) {
     }
   }
   out("]");
+  if (want_wait) { if (have_wait) out(" W%u", last_wait); else out(" W-"); }
 }
 
 #define MAXT 291
@@ -350,11 +357,11 @@ static int do_event(char *ev) {
     if (res[r]) { res_ver[r]++; coap_resource_notify_observers(res[r], NULL); }
     return 1;
   }
-  if (!strcmp(op, "io")) { if (nf != 1) return 0; coap_io_prepare_epoll(srv, sim_now); return 1; }
+  if (!strcmp(op, "io")) { if (nf != 1) return 0; last_wait = coap_io_prepare_epoll(srv, sim_now); have_wait = 1; return 1; }
   if (!strcmp(op, "adv")) {
     int ms = geti(f, nf, 1);
     if (nf != 2 || ms < 0) return 0;
-    sim_now += (coap_tick_t)ms; coap_io_prepare_epoll(srv, sim_now); return 1;
+    sim_now += (coap_tick_t)ms; last_wait = coap_io_prepare_epoll(srv, sim_now); have_wait = 1; return 1;
   }
   if (!strcmp(op, "ack") || !strcmp(op, "rst")) {
     int c = geti(f, nf, 1), n = geti(f, nf, 2);
@@ -411,7 +418,8 @@ static void step(char *line) {
   int n = h_words(line, w, 600);
   int st; char *rs;
   olen = 0; if (obuf) obuf[0] = 0;
-  if (n < 4 || strcmp(w[0], "obs") || strncmp(w[1], "st=", 3) || strncmp(w[2], "R=", 2) || strncmp(w[3], "C=", 2)) { printf("bad-op"); return; }
+  want_wait = n >= 1 && !strcmp(w[0], "obsw");
+  if (n < 4 || (strcmp(w[0], "obs") && !want_wait) || strncmp(w[1], "st=", 3) || strncmp(w[2], "R=", 2) || strncmp(w[3], "C=", 2)) { printf("bad-op"); return; }
   st = atoi(w[1] + 3); ncli = atoi(w[3] + 2);
   if (st < 1 || ncli < 1 || ncli > MAXC) { printf("bad-op"); return; }
   sim_reset();
@@ -450,7 +458,7 @@ static void step(char *line) {
     nres++;
     if (*rs == ',') rs++;
   }
-  if (nres < 1 || *rs) { sim_free_all(0); printf("bad-op"); return; }
+  if (nres < 1 || *rs || (want_wait && blockwise)) { sim_free_all(0); printf("bad-op"); return; }
   if (blockwise) coap_context_set_block_mode(srv, COAP_BLOCK_USE_LIBCOAP);   /* only then: other lines stay byte-identical */
   for (int c = 0; c < ncli; c++) {
     cctx[c] = sim_new_context();
@@ -461,6 +469,7 @@ static void step(char *line) {
   for (int i = 4; i < n; i++) {
     first_out = 1;
     if (i > 4) out(" | ");
+    have_wait = 0;
     if (!do_event(w[i])) { bad = 1; break; }
     dump_state();
   }
